@@ -170,6 +170,31 @@ func (w *world) expect(q *query, ver string) expectation {
 	if q.nullPos != "" {
 		return exp1(-1, errLine(codeInvalidParams))
 	}
+	if q.flags != nil {
+		// a response_flags argument: refused by the versions / methods that have no such parameter
+		// and when it is not a list of this method's flag; otherwise the answer is that of the
+		// request without it (INCLUDE_PROOF_FACTS changes the payload only: deep comparison) or,
+		// for getStorageAt, the two-field answer
+		base := *q
+		base.flags = nil
+		switch flagsVerdict(ver, q.method, q.flags) {
+		case "refuse":
+			return exp1(-1, errLine(codeInvalidParams))
+		case "set":
+			if q.method == "storage" {
+				base.method = "storageLU"
+			}
+			return w.expect(&base, ver)
+		case "either":
+			e := w.expect(&base, ver)
+			if !e.accepts(errLine(codeInvalidParams)) {
+				e.lines = append(append([]string{}, e.lines...), errLine(codeInvalidParams))
+			}
+			return e
+		default:
+			return w.expect(&base, ver)
+		}
+	}
 	if q.id != nil && q.id.sem(ver) == "invalid" {
 		return exp1(-1, errLine(codeInvalidParams))
 	}
@@ -275,6 +300,14 @@ func (w *world) expect(q *query, ver string) expectation {
 	case "txByHash", "receipt", "txStatus":
 		bn, i, found := w.findTx(&q.txHash)
 		if !found {
+			if q.method == "txStatus" && (q.feeder != nil || q.submitted) {
+				// not on the node's chain: the documented fallback to the gateway
+				f := feederSpec{mode: "says", fin: "notreceived", exec: "none"}
+				if q.feeder != nil {
+					f = *q.feeder
+				}
+				return exp1(-1, expectFeeder(ver, f, q.submitted))
+			}
 			return exp1(-1, errLine(codeTxnNotFound))
 		}
 		b := w.g.Bundles[bn]
